@@ -456,6 +456,12 @@ class SpecGen:
                 st['body'].append(F(nm, ty, optional=rng.choice(['true', 'true', 'True'])))
                 st['fixed'] = None
                 self.feat('field', 'optional', 'chunked' if st['chunked'] else 'plain')
+            if rng.random() < 0.4:
+                st['body'].append(A(self.name(st), rng.choice(['char', 'short', 'three']), optional='true'))
+                self.feat('array', 'optional', 'chunked' if st['chunked'] else 'plain')
+            elif rng.random() < 0.25 and not st['chunked']:
+                st['body'].append(D('short', str(rng.randrange(0, 200))))     # written only when nothing else was
+                self.feat('dummy', 'after-optionals')
         elif rng.random() < 0.08 and st['body'] and not st['unbounded_open'] and st['body'][-1]['tag'] != 'chunked':
             pass
         return st['body'], dict(bounded=st['bounded'], fixed=st['fixed'], ff_risk=st['ff_risk'])
